@@ -871,49 +871,107 @@ func checkFlattener(p *Prog, r *Report, f *ssa.Function, key string, K, N int64)
 var coordMethods = map[string]bool{"At": true, "YCbCrAt": true, "RGBAAt": true, "NRGBAAt": true, "GrayAt": true,
 	"YOffset": true, "COffset": true, "PixOffset": true, "RGBA64At": true}
 
-// minCoordAxis: v is <image>.Rect.Min.{X,Y} / Bounds().Min.{X,Y} → axis 0/1
-func minCoordAxis(v ssa.Value) (int, bool) {
-	var chain []string
+// minCoordAxis: v is <image>.Rect.Min.{X,Y} / <image>.Bounds().Min.{X,Y}, possibly through a local copy
+// (min := img.Rect.Min; b := img.Bounds()) → axis 0/1 and the image value the rectangle belongs to.
+func minCoordAxis(v ssa.Value) (int, ssa.Value, bool) {
+	var chain []string // innermost first: X, Min, [Rect]
 	cur := v
-	if u, ok := cur.(*ssa.UnOp); ok && u.Op == token.MUL {
-		cur = u.X
-		for {
-			fa, ok := cur.(*ssa.FieldAddr)
-			if !ok {
-				break
+	for step := 0; step < 12; step++ {
+		switch x := cur.(type) {
+		case *ssa.UnOp:
+			if x.Op != token.MUL {
+				return 0, nil, false
 			}
-			chain = append(chain, fieldName(fa.X.Type(), fa.Field))
-			cur = fa.X
-		}
-		// cur may be an Alloc holding a Bounds() result or a *image.T parameter
-	} else {
-		for {
-			fv, ok := cur.(*ssa.Field)
-			if !ok {
-				break
+			cur = x.X
+			continue
+		case *ssa.FieldAddr:
+			chain = append(chain, fieldName(x.X.Type(), x.Field))
+			cur = x.X
+			continue
+		case *ssa.Field:
+			chain = append(chain, fieldNameV(x.X.Type(), x.Field))
+			cur = x.X
+			continue
+		case *ssa.Alloc:
+			// a local copy: exactly one store of the whole value, everything else loads/field addresses
+			var st *ssa.Store
+			n := 0
+			for _, rf := range refs(x) {
+				if s, ok := rf.(*ssa.Store); ok && s.Addr == x {
+					st = s
+					n++
+				}
 			}
-			chain = append(chain, fieldNameV(fv.X.Type(), fv.Field))
-			cur = fv.X
+			if n != 1 {
+				return 0, nil, false
+			}
+			cur = st.Val
+			continue
 		}
+		break
 	}
-	// chain is innermost-last reversed: e.g. [X Min Rect] or [X Min]
-	if len(chain) < 2 {
-		return 0, false
+	if len(chain) < 2 || chain[1] != "Min" {
+		return 0, nil, false
 	}
-	if chain[1] != "Min" {
-		return 0, false
+	var root ssa.Value
+	switch len(chain) {
+	case 2:
+		// root must be a Bounds() call (Rectangle value) on the image
+		c, ok := cur.(*ssa.Call)
+		if !ok {
+			return 0, nil, false
+		}
+		if c.Call.IsInvoke() && c.Call.Method.Name() == "Bounds" {
+			root = c.Call.Value
+		} else if sc := c.Call.StaticCallee(); sc != nil && sc.Name() == "Bounds" && len(c.Call.Args) == 1 {
+			root = c.Call.Args[0]
+		} else {
+			return 0, nil, false
+		}
+	case 3:
+		if chain[2] != "Rect" {
+			return 0, nil, false
+		}
+		root = cur
+	default:
+		return 0, nil, false
 	}
-	if len(chain) == 3 && chain[2] != "Rect" {
-		return 0, false
-	}
-	// root must be an image-ish thing: parameter, Bounds() call, or Alloc of image.Rectangle
 	switch chain[0] {
 	case "X":
-		return 0, true
+		return 0, root, true
 	case "Y":
-		return 1, true
+		return 1, root, true
 	}
-	return 0, false
+	return 0, nil, false
+}
+
+// sameImage: the rectangle's image and the accessor's receiver are the same value (through interface
+// wrapping / type switches of the same parameter).
+func sameImage(a, b ssa.Value) bool {
+	strip := func(v ssa.Value) ssa.Value {
+		for i := 0; i < 8; i++ {
+			switch x := v.(type) {
+			case *ssa.MakeInterface:
+				v = x.X
+			case *ssa.ChangeInterface:
+				v = x.X
+			case *ssa.TypeAssert:
+				v = x.X
+			case *ssa.ChangeType:
+				v = x.X
+			case *ssa.Extract:
+				if ta, ok := x.Tuple.(*ssa.TypeAssert); ok && x.Index == 0 {
+					v = ta.X
+				} else {
+					return v
+				}
+			default:
+				return v
+			}
+		}
+		return v
+	}
+	return strip(a) == strip(b)
 }
 
 func ruleOrigin(p *Prog, r *Report, prop string) {
@@ -928,6 +986,7 @@ func ruleOrigin(p *Prog, r *Report, prop string) {
 			call ssa.CallInstruction
 			name string
 			x, y ssa.Value
+			recv ssa.Value
 		}
 		var sites []site
 		eachCall(f, func(cs ssa.CallInstruction) {
@@ -947,7 +1006,13 @@ func ruleOrigin(p *Prog, r *Report, prop string) {
 			if !coordMethods[name] || len(args) != 2 || !isIntType(args[0].Type()) || !isIntType(args[1].Type()) {
 				return
 			}
-			sites = append(sites, site{cs, name, args[0], args[1]})
+			var recv ssa.Value
+			if c.IsInvoke() {
+				recv = c.Value
+			} else {
+				recv = c.Args[0]
+			}
+			sites = append(sites, site{cs, name, args[0], args[1], recv})
 		})
 		if len(sites) == 0 {
 			continue
@@ -964,7 +1029,7 @@ func ruleOrigin(p *Prog, r *Report, prop string) {
 				if len(lo.Terms) == 1 && lo.C == 0 {
 					for k, c := range lo.Terms {
 						if lv, ok := k.(ssa.Value); ok && c == 1 {
-							if ax, ok := minCoordAxis(lv); ok && ax == axis {
+							if ax, root, ok := minCoordAxis(lv); ok && ax == axis && sameImage(root, s.recv) {
 								okAxis = true
 							}
 						}
